@@ -2,7 +2,7 @@
 import re
 
 import vlib
-from gen import discs
+from gen import discs, flux
 from props import common
 
 LEAN_MODULE = 'Beeb.Props.C16'
@@ -52,6 +52,15 @@ def mmb(tag, present):
     return vlib.Sparse(32 + 511 * 800, table)
 
 
+def half_blank_hfe(tag, formatted_side):
+    """a two-sided FM HFE image (40 x 10) one side of which holds a disc (titled tag+'a' / tag+'b'), the other formatted but blank (E5):
+    the blank side has no file system, yet it is a surface of the image and takes its drive number"""
+    blank = bytes([0xE5]) * (400 * 256)
+    sides = [one_sided(tag + 'a'), blank] if formatted_side == 0 else [blank, one_sided(tag + 'b')]
+    trs = flux.tracks_of_image(sides[0] + sides[1], 40, 10, 2, False)
+    return flux.hfe_image(trs, 2, True)
+
+
 def opposite(d):
     return d + 2 if d % 4 < 2 else d - 2
 
@@ -70,6 +79,10 @@ def gen_sequence(r, maxlen):
 def surfaces_of(kind, tag):
     if kind == 'ssd':
         return [tag]
+    if kind == 'hfa':
+        return [tag + 'a']
+    if kind == 'hfb':
+        return [tag + 'b']
     if kind == 'dsd':
         return [tag + 'a', tag + 'b']
     return None
@@ -96,6 +109,10 @@ def run(ctx):
                   [('policy', 'first'), ('file', 'mmb', 'Ia'), ('file', 'ssd', 'Ib')], [('file', 'ssd', 'Ia'), ('policy', 'first'), ('file', 'mmb', 'Ib'), ('policy', 'physical'), ('file', 'dsd', 'Ic')],
                   [('file', 'dsd', 'Ia'), ('policy', 'first'), ('file', 'ssd', 'Ib'), ('file', 'dsd', 'Ic')]):
         seqs.append(fixed)
+    # two-sided flux images with one blank side: the blank side keeps its drive number (physical: n and n+2; first: two numbers in order)
+    for fixed in ([('file', 'hfb', 'Ia')], [('file', 'hfa', 'Ia'), ('file', 'ssd', 'Ib')], [('policy', 'first'), ('file', 'hfb', 'Ia'), ('file', 'ssd', 'Ib')],
+                  [('file', 'ssd', 'Ia'), ('file', 'hfb', 'Ib'), ('policy', 'first'), ('file', 'dsd', 'Ic')], [('policy', 'first'), ('file', 'hfa', 'Ia'), ('file', 'dsd', 'Ib')]):
+        seqs.append(fixed)
     for _ in range(n):
         seqs.append(gen_sequence(r, 6))
     cases = []
@@ -110,8 +127,8 @@ def run(ctx):
                 argv.append('--drive-first' if op[1] == 'first' else '--drive-physical')
             else:
                 kind, tag = op[1], op[2]
-                name = '%s.%s' % (tag, kind)
-                files[name] = one_sided(tag) if kind == 'ssd' else two_sided(tag) if kind == 'dsd' else mmb(tag, mmb_present)
+                name = '%s.%s' % (tag, 'hfe' if kind in ('hfa', 'hfb') else kind)
+                files[name] = one_sided(tag) if kind == 'ssd' else two_sided(tag) if kind == 'dsd' else half_blank_hfe(tag, 0 if kind == 'hfa' else 1) if kind in ('hfa', 'hfb') else mmb(tag, mmb_present)
                 argv += ['--file', '@' + name]
                 nfiles += 1
                 prefixes.append((list(argv), dict(files)))
@@ -145,7 +162,7 @@ def run(ctx):
                 break
             i = c.impl
             rp = common.replay_of(c)
-            has_mmb = any(o[0] == 'file' and o[1] == 'mmb' for o in seq)
+            has_mmb = any(o[0] == 'file' and o[1] in ('mmb', 'hfa', 'hfb') for o in seq)      # surfaces without a file system: show-titles has no title to show
             if i['exit'] != 0 and not has_mmb:     # show-titles exits 1 for unformatted MMB slots (no title to show)
                 ctx.violation('attach-failed', 'attaching/showing a valid sequence of images failed (exit %d)' % i['exit'], rp)
                 break
@@ -212,6 +229,23 @@ def run(ctx):
                     if newnums != expd:
                         ctx.violation('mmb-slot-numbering', '%s policy: slots %s of %s are on drives %s, expected %s (unformatted slots keep their numbers)' % (
                             pol_at[pi], slots, o[2], newnums, expd), rp)
+                if o[1] in ('hfa', 'hfb'):
+                    mine = sorted(d for d, desc in cfg.items() if (o[2] + '.hfe') in desc)
+                    fside = 0 if o[1] == 'hfa' else 1
+                    allslots = mine          # the generic numbering checks below look at both sides
+                    if pol_at[pi] == 'physical':
+                        okn = len(mine) == 2 and mine[0] % 4 < 2 and mine[1] == opposite(mine[0]) and not any(opposite(d) in old or d in old for d in mine)
+                    else:
+                        occ3, exp3, n3 = set(old), [], 0
+                        for _ in range(2):
+                            while n3 in occ3:
+                                n3 += 1
+                            exp3.append(n3)
+                            occ3.add(n3)
+                        okn = mine == exp3
+                    if not okn or newnums != [mine[fside]]:
+                        ctx.violation('blank-side-numbering', '%s policy: the two sides of %s (side %d formatted, the other blank) are shown on drives %s and the formatted side reads on drive %s; '
+                                      'expected both sides to keep their numbers and the formatted side on the %s of them' % (pol_at[pi], o[2], fside, mine, newnums, 'first' if fside == 0 else 'second'), rp)
                 if pol_at[pi] == 'physical' and o[1] == 'dsd' and len(newnums) == 2 and not (newnums[0] % 4 < 2 and newnums[1] == opposite(newnums[0])):
                     ctx.violation('physical-not-one-drive', 'physical policy: the two sides of %s are on drives %s, which are not the two sides of one physical drive' % (o[2], newnums), rp)
                 if pol_at[pi] == 'physical':
